@@ -14,14 +14,26 @@ def fr(r):
     return r[0] / r[1]
 
 
-def theta_of(a, wind):
-    return math.atan2(fr(a[1]), fr(a[0])) + 2 * math.pi * wind
+def theta_of(a, wind, nudge=False):
+    th = math.atan2(fr(a[1]), fr(a[0])) + 2 * math.pi * wind
+    if nudge and fr(a[0]) * fr(a[1]) == 0:
+        # a whole number of quarter turns handed over a millionth short of it (3.14159 for pi): still that turn, to 1e-5 of any coordinate
+        th *= 1 - 1e-6
+    return th
 
 
-def mk_tree(pts, k):
+def mk_tree(pts, k, custom=False):
     from swcgeom.core import Tree
     n = len(pts)
     pid = [-1] + [(i - 1 if (i + k) % 2 else 0) for i in range(1, n)]
+    if custom:
+        # a tree whose columns carry user-chosen names (SWCNames): the accessors x() / y() / z() / r() read the named columns
+        from swcgeom.core.swc_utils import SWCNames
+        nm = SWCNames(id="n", type="kind", x="px", y="py", z="pz", r="rad", pid="parent")
+        return Tree(n, source=lib.SRC, names=nm, n=np.arange(n, dtype=np.int32), parent=np.array(pid, dtype=np.int32),
+                    kind=np.array([1 + (i + k) % 4 for i in range(n)], dtype=np.int32),
+                    px=np.array([p[0] for p in pts], dtype=np.float32), py=np.array([p[1] for p in pts], dtype=np.float32),
+                    pz=np.array([p[2] for p in pts], dtype=np.float32), rad=np.array([0.5 + i for i in range(n)], dtype=np.float32))
     return Tree(n, source=lib.SRC, id=np.arange(n, dtype=np.int32), pid=np.array(pid, dtype=np.int32), type=np.array([1 + (i + k) % 4 for i in range(n)], dtype=np.int32),
                 x=np.array([p[0] for p in pts], dtype=np.float32), y=np.array([p[1] for p in pts], dtype=np.float32),
                 z=np.array([p[2] for p in pts], dtype=np.float32), r=np.array([0.5 + i for i in range(n)], dtype=np.float32))
@@ -42,7 +54,7 @@ def mk_op(o, wind, use_cls, vid=0):
     if op == "scale":
         v = [fr(x) for x in o["v"]]
         return (lambda t: Scale.transform(t, *v, center=c)) if use_cls else Scale(*v, center=c)
-    th = theta_of(o["a"], wind)
+    th = theta_of(o["a"], wind, nudge=(vid % 3 == 2))
     if op in ("rotx", "roty", "rotz"):
         cls = {"rotx": RotateX, "roty": RotateY, "rotz": RotateZ}[op]
         return (lambda t: cls.transform(t, th, center=c)) if use_cls else cls(th, center=c)
@@ -83,7 +95,7 @@ def execute(c):
     g = mk_op(c["oi"], -wind, False, lib.vid(c) // 3) if c["kind"] == "inverse" else None
     res, kept = [], 1
     for j, pts in enumerate(c["trees"]):
-        t = mk_tree(pts, j)
+        t = mk_tree(pts, j, custom=(lib.vid(c) % 4 == 2))
         snap = lib.snapshot(t)
         u = f(t)
         if g is not None:
